@@ -11,7 +11,10 @@ FILES="$(echo *.v gen/*.v props/*.v)"
 coq_makefile -f _CoqProject $FILES -o Makefile > /dev/null
 if [ "$1" = "--makefile-only" ]; then exit 0; fi
 if [ "$1" = "--clean" ]; then make clean > /dev/null 2>&1 || true; fi
-timeout 7200 make -j16
+# keep going past a file that does not compile (work in progress is never claimed); what MANIFEST claims must build
+timeout 7200 make -k -j16 || true
+CLAIMED=$(/venv/bin/python -c "import json; print(' '.join('props/%s.vo' % c['property_id'] for c in json.load(open('../MANIFEST.json'))['checks']))")
+timeout 3600 make -j16 $CLAIMED
 cd ..
 /venv/bin/python -u harness/main.py --scan
 echo "setup ok"
